@@ -879,6 +879,17 @@ func (s *Server) buildAdvertise(msg *Message, clientDUID string, clientAddr net.
 		response.Options = append(response.Options, MakeDNSServersOption(s.dnsServers))
 	}
 
+	// The Advertise offers the values of the client's current binding again
+	// with fresh lifetimes: the binding must not expire (and hand them to
+	// another client) while that offer stands.
+	s.leasesMu.Lock()
+	if lease, exists := s.leases[clientDUID]; exists {
+		if end := time.Now().Add(time.Duration(s.getValidLifetime()) * time.Second); end.After(lease.ValidEnd) {
+			lease.ValidEnd = end
+		}
+	}
+	s.leasesMu.Unlock()
+
 	return response
 }
 
